@@ -4,6 +4,8 @@ PROPS = [json.loads(l)["id"] for l in open("properties.jsonl")]
 BASE = "cd /repo && /venv/bin/python -m pytest -ra -q -p no:cacheprovider --timeout=900 --continue-on-collection-errors"
 TECH = "contract-based deductive verification: sidecar contracts on the real functions, VCs generated from /repo's AST by pyvc, discharged by z3 (cvc5 fallback); counter-models replayed natively"
 CLAIMED = {
+ "C14": dict(text="from_native is proved (recursive contract, comprehension rule per element) to return a well-formed schema R with conforms(R, w) <=> denotes(x, w) for every w, where denotes is the specification of `the same plain value` written from the statement; to raise only ValueError on the plain-value domain; reflexivity (R accepts x) is a lemma over that contract by structural induction. The Validator verdict contract it composes with is re-proved in this check.",
+             note="DictSchema.__call__ is an assumed contract (its loop is not yet verified); ListSchema.__call__ and the scalar __call__ contracts are proved. Domain: dicts with plain keys (no ... / optional keys). Known finding: NaN.", ref="DESIGN.md 4.14"),
  "C04": dict(text="Exact contracts of Substitutor.visit_<scalar> (raises SubstitutionError iff the value does not conform; otherwise the result is the schema with value := v) proved against the real bodies, then lemmas over those contracts and the specification functions: S % v accepts v, is reachable/self-consistent, and every value it accepts is pinned to v. The Validator verdict contract it composes with is re-proved in this check.",
              note="Scalar schema types only so far: list / dict / any / alias substitution and from_native are pending (not yet under contract). Known finding: NaN.", ref="DESIGN.md 4.4"),
  "C05": dict(text="Lemma over the exact scalar substitution contracts: every value accepted by S % v is accepted by S (all clauses of S stay in the result registry).",
